@@ -228,6 +228,30 @@ fn check_bytes(ctx: &mut Ctx, index: u64, bytes: &[u8], class: &str) {
             );
             return;
         }
+        // the framing is that of the byte content, however the reader hands the bytes out: a sample of the
+        // cases is also decoded through readers whose first chunk is shorter than a BOM
+        if index % 4 == 0 && !bytes.is_empty() {
+            use rosu_map::DecodeBeatmap;
+            for sizes in [vec![1usize, usize::MAX], vec![2, usize::MAX], vec![1, 1, usize::MAX], vec![3, 1]] {
+                ctx.count("chunked_deliveries_checked");
+                match Trace::decode(crate::obs::io::ChunkReader::new(bytes, sizes.clone(), Vec::new())) {
+                    Ok(t) if t == exp => {}
+                    Ok(t) => {
+                        ctx.violation(
+                            "trace_mismatch",
+                            format!("line dispatch through a reader with chunk sizes {sizes:?} differs from the framing model\n real:  {}\n model: {}", t.render(), exp.render()),
+                            index,
+                            bytes,
+                        );
+                        return;
+                    }
+                    Err(e) => {
+                        ctx.violation("err_from_memory", format!("decode through a chunked in-memory reader failed: {e:?}"), index, bytes);
+                        return;
+                    }
+                }
+            }
+        }
         let reference = beatmap_from_trace(&exp);
         if cmp::full(&reference) != cmp::full(&map) {
             ctx.violation(
